@@ -42,7 +42,10 @@ class LetC(FragContract):
         p = cx.p0
         r1 = rho_of(['x', 'y'], [a.val(p, r0), y0])
         q = a.end(p, r0)
-        return Outcome(And(a.ok(p, r0), b.ok(q, r1)), b.val(q, r1), b.end(q, r1))
+        # the binding is made only when its expression succeeded: an abandoned let leaves the name as it was (this clause is separate from
+        # G-scope[x], whose failure on the SUCCESS path - the binding outlives the let - is the known finding)
+        extra = [('Let-abandoned: when the binding expression fails the name keeps its value', Implies(Not(a.ok(p, r0)), ex.box(st.env['x']) == x0))]
+        return Outcome(And(a.ok(p, r0), b.ok(q, r1)), b.val(q, r1), b.end(q, r1), extra)
 
     def ref(self, cx, W, user):
         ok, v, q = W.child(1, W.p0, user)
